@@ -31,8 +31,9 @@ EXTRA_TRUSTED = [
 ]
 ASSUMPTIONS = [
     "theorems hold for digit widths w > 0 with w mod 8 = 0 and digit counts n >= 1",
-    "premises of the C10 theorems (coq/Proofs/ParseDeps.v), owned by other properties: U_overflowing_add_spec (C01), bit_spec and "
-    "trailing_zeros_spec (C06), I_wrapping_neg_spec (C01), is_negative_spec (C07)",
+    "the facts about other models the C10 proofs use (coq/Proofs/ParseDeps.v: overflowing_add, bit, trailing_zeros, wrapping_neg, "
+    "is_negative) were developed as explicit premises and are discharged by the proved theorems in coq/Proofs/DischargeParse.v; "
+    "every theorem of coq/Properties/C10.v is premise-free",
 ]
 
 DIG = "0123456789abcdefghijklmnopqrstuvwxyz"
